@@ -569,3 +569,75 @@ func ruleIDHoist(c *Ctx) []Obligation {
 	}
 	return []Obligation{bad(R, con, c.InstrPos(hdr.Instrs[0]), "the include loop is skipped under a condition ("+extra[0]+"): a module whose identities all live in submodules loses them")}
 }
+
+// ---------------------------------------------------------------- ID.VALRESET
+
+func init() {
+	register(&Rule{Name: "ID.VALRESET", Props: []string{"C18", "C11"}, Floor: 2,
+		Doc: "every identity filed in the dictionary starts the run with an empty value list: the filing site clears Identity.Values of the identity it files",
+		Run: ruleIDValReset})
+}
+
+func ruleIDValReset(c *Ctx) []Obligation {
+	const R = "ID.VALRESET"
+	fn := c.Fn("yang.(*Modules).resolveIdentities")
+	idd := c.Named("yang", "identityDictionary")
+	idT := c.Named("yang", "Identity")
+	if fn == nil || idd == nil || idT == nil {
+		return []Obligation{undecided(R, "identity resolver", "-", "resolveIdentities / identityDictionary / Identity not found")}
+	}
+	fDict := FieldVar(idd, "dict")
+	fValues := FieldVar(idT, "Values")
+	var obs []Obligation
+	n := 0
+	eachInstr(fn, func(in ssa.Instruction) {
+		mu, isMU := in.(*ssa.MapUpdate)
+		if !isMU {
+			return
+		}
+		if _, f, _ := loadedField(mu.Map); f != fDict {
+			return
+		}
+		n++
+		con := "the identity filed in the dictionary has its value list cleared first"
+		if n > 1 {
+			con = fmt.Sprintf("%s #%d", con, n)
+		}
+		// the identity: the *Identity argument of the call whose result is filed
+		var ident ssa.Value
+		backSlice(mu.Value, func(x ssa.Value) bool {
+			if call, isC := x.(*ssa.Call); isC {
+				for _, a := range call.Call.Args {
+					if pt, isP := a.Type().(*types.Pointer); isP && namedOf(pt.Elem()) == idT {
+						ident = a
+					}
+				}
+				return false
+			}
+			return true
+		})
+		if ident == nil {
+			obs = append(obs, undecided(R, con, c.InstrPos(in), "the identity being filed could not be identified"))
+			return
+		}
+		cleared := false
+		for _, st := range storesToField(fn, fValues) {
+			if !isNilConst(st.Val) {
+				continue
+			}
+			_, _, base := fieldOf(st.Addr)
+			if sameObject(base, ident) && (st.Block() == in.Block() || dominates(st, in)) {
+				cleared = true
+			}
+		}
+		if cleared {
+			obs = append(obs, ok(R, con, c.InstrPos(in), "i.Values = nil precedes the filing of i in the same loop body"))
+		} else {
+			obs = append(obs, bad(R, con, c.InstrPos(in), "an identity is filed without clearing the value list an earlier run left on it: the run appends to it, and an identity that a later run no longer files keeps the old list (results differ from a batch load)"))
+		}
+	})
+	if n == 0 {
+		obs = append(obs, undecided(R, "identity filing sites", c.Pos(fn.Pos()), "no store into the identity dictionary found"))
+	}
+	return obs
+}
